@@ -179,7 +179,7 @@ pub fn random_rev(rng: &mut Rng) -> RevOutcome {
 
 pub fn random_cleanup(rng: &mut Rng) -> CleanupSpec {
     CleanupSpec {
-        pending: *rng.pick(&[PendingSpec::NoneFfff, PendingSpec::NoneFfff, PendingSpec::NoBmp, PendingSpec::Dangling, PendingSpec::Dangling, PendingSpec::DanglingAt(0), PendingSpec::DanglingAt(9999), PendingSpec::DanglingWithList, PendingSpec::DanglingWithOtherList]),
+        pending: *rng.pick(&[PendingSpec::NoneFfff, PendingSpec::NoneFfff, PendingSpec::NoBmp, PendingSpec::Dangling, PendingSpec::Dangling, PendingSpec::DanglingAt(0), PendingSpec::DanglingAt(9999), PendingSpec::DanglingWithList, PendingSpec::DanglingWithOtherList, PendingSpec::DanglingReusing]),
         pending_pre: if rng.pct(20) { 1 + rng.below(2) as u8 } else { 0 },
         cancel: RevOutcome {
             pre: rng.below(3) as u8,
@@ -271,6 +271,8 @@ pub fn random_transport(plan: &mut ClientPlan, rng: &mut Rng) {
     plan.pt.status_codes = if rng.pct(20) { 4 + rng.below(256) as u16 } else { rng.below(4) as u16 };
     plan.pt.script_order = if rng.pct(35) { 1 + rng.below(3) as u8 } else { 0 };
     plan.pt.decorated = if rng.pct(30) { 1 + rng.below(3) as u8 } else { 0 };
+    plan.pt.status_shows_abort_code = rng.pct(30);
+    plan.pt.eod_abort_receipt = if rng.pct(15) { Some(*rng.pick(&[1u16, 42, 9999])) } else { None };
     plan.pt.intermediate_timeout = if rng.pct(25) { Some(*rng.pick(&[0u8, 1, 30, 99])) } else { None };
     limit_delays(plan);
     plan.pt.abort_extras = if rng.pct(30) { 1 + rng.below(4) as u8 } else { 0 };
@@ -772,6 +774,44 @@ fn unusual_order_plan(mut i: u64) -> ClientPlan {
     p
 }
 const UNUSUAL_ORDER_N: u64 = 3 * 3 * 2 * 3 * 4;
+
+/// An earlier transaction was closed (committed or cancelled, end-of-day done); a later clean-up is told of
+/// a dangling pre-authorisation that carries the *same receipt number* again (a terminal that restarted
+/// its numbering): it is reversed like any other. `i`: first closed by commit|cancel x second x abort of
+/// the dangling reversal or not.
+fn reused_receipt_plan(i: u64) -> ClientPlan {
+    let close = |t: &str, commit: bool, cleanup: CleanupSpec| {
+        if commit {
+            OpSpec::Commit { token: t.into(), amount: 800, rev: RevOutcome::success(), cleanup }
+        } else {
+            OpSpec::Cancel { token: t.into(), rev: RevOutcome::success(), cleanup }
+        }
+    };
+    let cancel_end = if (i / 4) % 2 == 0 { EndSpec::Completion } else { EndSpec::Abort(0xb4) };
+    let second = CleanupSpec { pending: PendingSpec::DanglingReusing, cancel: RevOutcome { pre: 0, status: false, prints: 0, end: cancel_end }, ..CleanupSpec::plain() };
+    ClientPlan::plain(vec![
+        OpSpec::Begin { token: "A".into(), res: ResOutcome::success() },
+        close("A", i % 2 == 0, CleanupSpec::plain()),
+        OpSpec::Begin { token: "B".into(), res: ResOutcome::success() },
+        close("B", (i / 2) % 2 == 0, second),
+    ])
+}
+
+/// End-of-day refused in the long form: the abort names a receipt number behind its result code.
+/// `i`: code x named receipt x (commit | cancel | configure).
+fn eod_long_refusal_plan(i: u64) -> ClientPlan {
+    let code = [0xa0u8, 0xb8, 0x64, 0x9c][(i % 4) as usize];
+    let named = [42u16, 9999, 1][((i / 4) % 3) as usize];
+    let cleanup = CleanupSpec { eod: EodOutcome { pre: (i % 2) as u8, status: false, prints: 0, end: EndSpec::Abort(code) }, ..CleanupSpec::plain() };
+    let ops = match i / 12 {
+        0 => vec![OpSpec::Begin { token: "A".into(), res: ResOutcome::success() }, OpSpec::Commit { token: "A".into(), amount: 800, rev: RevOutcome::success(), cleanup }],
+        1 => vec![OpSpec::Begin { token: "A".into(), res: ResOutcome::success() }, OpSpec::Cancel { token: "A".into(), rev: RevOutcome::success(), cleanup }],
+        _ => vec![OpSpec::Configure { out: ConfigureOutcome { cleanup, ..ConfigureOutcome::plain() } }],
+    };
+    let mut p = ClientPlan::plain(ops);
+    p.pt.eod_abort_receipt = Some(named);
+    p
+}
 
 /// One public call whose exchange `ex` (0..9) the terminal aborts with `code` after `k`
 /// intermediate statuses and `prints` print packets.
@@ -1291,6 +1331,8 @@ impl Check for ClientCheck {
             }
             "C19" => {
                 fams.push(Family::new("reply_packets_in_unusual_order", UNUSUAL_ORDER_N, true, |i, _| unusual_order_plan(i)));
+                fams.push(Family::new("dangling_with_a_reused_receipt_number", 8, true, |i, _| reused_receipt_plan(i)));
+                fams.push(Family::new("end_of_day_refused_in_the_long_form", 36, true, |i, _| eod_long_refusal_plan(i)));
                 // (own op commit|cancel) x (other token open or not) x pending form x 256 eod outcomes (+completion)
                 let n = 2 * 2 * 2 * 7 * 257 * 2;
                 fams.push(Family::new("cleanup_grid_all_eod_outcomes", n, true, |mut i, _| {
@@ -1399,6 +1441,17 @@ impl Check for ClientCheck {
                 fams.push(Family::new("random_walks_under_transport_faults", n / 2, false, |_, rng| faulty_walk(rng, &TOKENS5, 12)));
             }
             "C20" => {
+                fams.push(Family::new("dangling_with_a_reused_receipt_number", 8, true, |i, _| reused_receipt_plan(i)));
+                fams.push(Family::new("end_of_day_refused_in_the_long_form", 36, true, |i, _| eod_long_refusal_plan(i)));
+                // a reservation whose status information already shows the result code the abort will carry
+                fams.push(Family::new("reservation_status_shows_the_abort_code", 256 * 2, true, |i, _| {
+                    let mut p = ClientPlan::plain(vec![
+                        OpSpec::Begin { token: "A".into(), res: ResOutcome { pre: (i / 256) as u8, status: StatusMode::WithReceipt, prints: 0, end: EndSpec::Abort((i % 256) as u8) } },
+                        OpSpec::Begin { token: "A".into(), res: ResOutcome::success() },
+                    ]);
+                    p.pt.status_shows_abort_code = true;
+                    p
+                }));
                 // exchange x 256 codes x abort after k in 0..4 non-final packets
                 fams.push(Family::new("every_exchange_x_256_codes_x_position", 9 * 256 * 4, true, |i, _| {
                     let code = (i % 256) as u8;
